@@ -33,7 +33,8 @@ RULE = ("ordered pairs (a, b) of trees over one namespace and leaf set: all of U
         "aliases; all triples of U(4) (thorough: binary U(5)) for the triangle inequality; all histories "
         "[encode | distance, one edit with every target, distance]; pairs over two namespaces.  A case = one pair of "
         "drawings evaluated with a group of functions (or one triple, or one history); non-trivial = both trees "
-        "have >= 3 leaves")
+        "have >= 3 leaves.  Plus a 'large representatives' layer that is exhaustive only over the finite set listed in "
+        "bounds()['large_representatives'] (ladders, balanced trees, stars, a broom, 12-100 leaves)")
 ASSUMPTIONS = [
     "reference split set of a rooted tree = set of clades of all nodes (seed included); of an unrooted (or rooting-undefined) tree = set of two-sided leaf bipartitions {side, rest} with both sides non-empty; computed from Node._child_nodes snapshots by mc/ref.py",
     "reference length of a split = sum of the lengths of all edges inducing it (unifurcation chains, the two edges at an unrooted basal bifurcation); absent split = 0",
@@ -79,6 +80,19 @@ KIND = {"sd": "sd", "urf": "sd", "Tree.sd": "sd", "fpfn": "fpfn", "Tree.fpfn": "
 
 
 def bounds(tier):
+    b = _bounds(tier)
+    big = big_set()
+    b["large_representatives"] = {
+        "note": "exhaustive over this stated set only (both tiers): every ordered pair of equal-size trees, all five "
+                "functions, unit and cyclic 1-2-3 lengths, both rootings; triangle inequality on all triples of equal-size "
+                "trees; each tree against itself, its reversed drawing, re-seedings at the first/middle/last internal "
+                "node and edge (unrooted), up to three NNI-like rearrangements, four one-edit histories, one "
+                "foreign-namespace call; labels t000..tNNN",
+        "trees": {name: len(U.shape_leaves(sh)) for name, sh in big.items()}}
+    return b
+
+
+def _bounds(tier):
     if tier == "quick":
         return {"pairs_all_functions_max_leaves": 5, "pairs_unweighted_binary_leaves": None,
                 "x12_full_product_max_leaves": 3, "x12_vs_fixed_leaves": 4,
@@ -198,6 +212,102 @@ def missing_variants(shape):
             seen.add(s)
             res.append((tag, s))
     return res
+
+
+# ---------------------------------------------------------------------------
+# large representatives (a stated finite set; the layer is exhaustive over that set only)
+
+def labels_for(n):
+    """a..h for the small universe, t000..tNNN for the large representatives (n > 8)"""
+    if n <= len(U.LABELS):
+        return U.LABELS[:n]
+    return ["t%03d" % i for i in range(n)]
+
+
+def ladder_left(n):
+    s = 0
+    for i in range(1, n):
+        s = (s, i)
+    return s
+
+
+def ladder_right(n):
+    s = n - 1
+    for i in range(n - 2, -1, -1):
+        s = (i, s)
+    return s
+
+
+def balanced(lo, hi):
+    if hi - lo == 1:
+        return lo
+    mid = (lo + hi + 1) // 2
+    return (balanced(lo, mid), balanced(mid, hi))
+
+
+def broom(k, m):
+    """right-leaning ladder of k tips ending in a star of m tips"""
+    s = tuple(range(k, k + m))
+    for i in range(k - 1, -1, -1):
+        s = (i, s)
+    return s
+
+
+BIG_FAMILY_SIZES = (16, 32, 33, 64, 65)     # ladder / right-ladder / (near-)balanced / star of equal size
+
+
+def big_set():
+    """name -> shape; the stated finite set of large inputs"""
+    out = {}
+    for n in (12, 17, 33, 40, 65) + BIG_FAMILY_SIZES:
+        out["ladderL%d" % n] = ladder_left(n)
+        out["ladderR%d" % n] = ladder_right(n)
+    for n in (16, 32, 64) + BIG_FAMILY_SIZES:
+        out["balanced%d" % n] = balanced(0, n)
+    for n in (12, 33, 40, 100) + BIG_FAMILY_SIZES:
+        out["star%d" % n] = tuple(range(n))
+    out["broom20+40"] = broom(20, 40)
+    return dict(sorted(out.items()))
+
+
+def _cyc123(i, leaf, depth):
+    return None if depth == 0 else (1, 2, 3)[i % 3]
+
+
+def big_snap(shape, pattern):
+    n = len(U.shape_leaves(shape))
+    return ref.mk(shape, lens=_cyc123 if pattern == "cyc123" else _unit, labels=labels_for(n))
+
+
+def nni_variants(shape):
+    """one NNI-like local rearrangement each: at the first / middle / last internal edge
+    (v -> c, c internal) exchange c's first child with a sibling of c"""
+    sites = []
+    for p in U.paths(shape):
+        v = U.at(shape, p)
+        if isinstance(v, int):
+            continue
+        for i, c in enumerate(v):
+            if not isinstance(c, int):
+                sites.append((p, i))
+    out = []
+    for k in sorted(set([0, len(sites) // 2, len(sites) - 1])) if sites else []:
+        p, i = sites[k]
+        v = U.at(shape, p)
+        j = (i + 1) % len(v)
+        c, sib = v[i], v[j]
+        newc = (sib,) + c[1:]
+        kids = list(v)
+        kids[i] = newc
+        kids[j] = c[0]
+        new = U.replace_at(shape, p, tuple(kids))
+        if new not in out and new != shape:
+            out.append(new)
+    return out
+
+
+def pick3(lst):
+    return [lst[k] for k in sorted(set([0, len(lst) // 2, len(lst) - 1]))] if lst else []
 
 
 # ---------------------------------------------------------------------------
@@ -409,6 +519,12 @@ def feature(rooted, sa, sb):
     return "plain"
 
 
+def nwk(sn):
+    """newick text for messages and samples (long trees abbreviated; the case dict has the full tree)"""
+    s = ref.to_newick(sn)
+    return s if len(s) <= 240 else s[:200] + "...[%d leaves]" % nleaves(sn)
+
+
 def rootname(rooted):
     return "rooted" if rooted else ("unrooted" if rooted is False else "rooting-undefined")
 
@@ -429,7 +545,7 @@ class Env(object):
     _cache = {}
 
     def __init__(self, n, cfg):
-        self.labels = U.LABELS[:n]
+        self.labels = labels_for(n)
         self.ns, self.bit = build.make_namespace(self.labels, cfg)
         self.cfg = cfg
         self.bylabel = sorted(self.bit.items(), key=lambda kv: kv[1])
@@ -514,14 +630,14 @@ def eval_pair(ctx, rooted, sa, sb, fns, cfg="exact", prep="fresh", exact=True):
             got = call(fn, ta, tb, env, isr, allc, updated=(prep != "fresh"))
         except Exception as e:
             ctx.violation("%s|exception|%s" % (NAMES[fn], type(e).__name__),
-                          "%s(%s, %s) [%s] raised %r" % (NAMES[fn], ref.to_newick(sa), ref.to_newick(sb), rootname(rooted), e),
+                          "%s(%s, %s) [%s] raised %r" % (NAMES[fn], nwk(sa), nwk(sb), rootname(rooted), e),
                           pair_case(rooted, sa, sb, [fn], cfg, prep))
             continue
         exps = expected(kind, sa, sb, isr)
         if not value_ok(kind, got, exps, exact):
             ctx.violation("%s|value|%s|%s" % (NAMES[fn], rootname(rooted), feature(isr, sa, sb)),
                           "%s(%s, %s) [%s, %s] = %r, definition gives %r" % (
-                              NAMES[fn], ref.to_newick(sa), ref.to_newick(sb), rootname(rooted), prep, show(got), show(exps[0])),
+                              NAMES[fn], nwk(sa), nwk(sb), rootname(rooted), prep, show(got), show(exps[0])),
                           pair_case(rooted, sa, sb, [fn], cfg, prep))
 
 
@@ -554,11 +670,11 @@ def eval_pair_both(ctx, rooted, sa, sb, fns, cfg="exact"):
             for (s, v), (x, y) in zip(res, ((sa, sb), (sb, sa))):
                 if s == "exc":
                     ctx.violation("%s|exception|%s" % (NAMES[fn], type(v).__name__),
-                                  "%s(%s, %s) raised %r" % (NAMES[fn], ref.to_newick(x), ref.to_newick(y), v), case)
+                                  "%s(%s, %s) raised %r" % (NAMES[fn], nwk(x), nwk(y), v), case)
                 elif not value_ok(kind, v, expected(kind, x, y, isr), True):
                     ctx.violation("%s|value|%s|%s" % (NAMES[fn], rootname(rooted), feature(isr, x, y)),
                                   "%s(%s, %s) = %r, definition gives %r" % (
-                                      NAMES[fn], ref.to_newick(x), ref.to_newick(y), show(v), show(expected(kind, x, y, isr)[0])), case)
+                                      NAMES[fn], nwk(x), nwk(y), show(v), show(expected(kind, x, y, isr)[0])), case)
             continue
         if (s1 == "ok") != (s2 == "ok"):
             ok_first = s1 == "ok"
@@ -568,7 +684,7 @@ def eval_pair_both(ctx, rooted, sa, sb, fns, cfg="exact"):
                               NAMES[fn],
                               ("returns %r" % (v1,)) if ok_first else ("raises %r" % (v1,)),
                               ("raises %r" % (v2,)) if ok_first else ("returns %r" % (v2,)),
-                              ref.to_newick(sa), ref.to_newick(sb), rootname(rooted)), case)
+                              nwk(sa), nwk(sb), rootname(rooted)), case)
             continue
         if s1 == "exc":
             ctx.count("refused_both_orders")
@@ -579,7 +695,7 @@ def eval_pair_both(ctx, rooted, sa, sb, fns, cfg="exact"):
         ctx.count("defined_both_orders")
         if not ref.feq(v1, v2):
             ctx.violation("%s|asymmetric-value|missing-length" % NAMES[fn],
-                          "%s(A,B)=%r, (B,A)=%r; A=%s B=%s [%s]" % (NAMES[fn], v1, v2, ref.to_newick(sa), ref.to_newick(sb), rootname(rooted)), case)
+                          "%s(A,B)=%r, (B,A)=%r; A=%s B=%s [%s]" % (NAMES[fn], v1, v2, nwk(sa), nwk(sb), rootname(rooted)), case)
             continue
         exps = expected(kind, sa, sb, isr)
         if not value_ok(kind, v1, exps, False):
@@ -587,7 +703,7 @@ def eval_pair_both(ctx, rooted, sa, sb, fns, cfg="exact"):
             ctx.violation(("%s|value|%s|%s" if feat == "two-leaf-tree" else "%s|value|missing-length|%s|%s") % (
                               NAMES[fn], rootname(rooted), feat),
                           "%s(A,B)=%r in both orders, definition with missing length read as 0 gives %r; A=%s B=%s" % (
-                              NAMES[fn], v1, exps[0], ref.to_newick(sa), ref.to_newick(sb)), case)
+                              NAMES[fn], v1, exps[0], nwk(sa), nwk(sb)), case)
 
 
 def eval_reorder(ctx, rooted, sa, sb, fns, cfg="exact"):
@@ -620,11 +736,11 @@ def eval_reorder(ctx, rooted, sa, sb, fns, cfg="exact"):
             if (s1 == "ok") != (s2 == "ok"):
                 ctx.violation(sig,
                               "%s with A as %s argument: %s, with A's child order reversed: %s; A=%s B=%s [%s]" % (
-                                  NAMES[fn], pos, (s1, v1), (s2, v2), ref.to_newick(sa), ref.to_newick(sb), rootname(rooted)), case)
+                                  NAMES[fn], pos, (s1, v1), (s2, v2), nwk(sa), nwk(sb), rootname(rooted)), case)
             elif s1 == "ok" and not ref.feq(v1, v2):
                 ctx.violation(sig,
                               "%s with A as %s argument = %r, with A's child order reversed (%s) = %r; A=%s B=%s [%s]" % (
-                                  NAMES[fn], pos, v1, ref.to_newick(sr), v2, ref.to_newick(sa), ref.to_newick(sb), rootname(rooted)), case)
+                                  NAMES[fn], pos, v1, nwk(sr), v2, nwk(sa), nwk(sb), rootname(rooted)), case)
 
 
 # ---------------------------------------------------------------------------
@@ -753,6 +869,13 @@ def chunks(tier):
     for n in range(1, b["foreign_ns_max_leaves"] + 1):
         for rooted in (True, False):
             add(kind="foreign", n=n, rooted=rooted)
+    # (8) large representatives
+    big = big_set()
+    for rooted in (True, False):
+        for size in sorted(set(len(U.shape_leaves(sh)) for sh in big.values())):
+            add(kind="bigpairs", n=size, rooted=rooted)
+        for name in big:
+            add(kind="bigself", n=len(U.shape_leaves(big[name])), rooted=rooted, name=name)
     # big trees first (better tail behaviour of the pool); deterministic
     out.sort(key=lambda c: -c["n"])
     return out
@@ -790,8 +913,8 @@ def run_pairs(chunk, ctx):
                 eval_pair(ctx, rooted, sn[i], sn[j], fns, exact=exact)
             ctx.count("base_pairs")
         if i % 5 == 0:
-            ctx.sample({"layer": "pairs", "rooting": rootname(rooted), "a": ref.to_newick(sn[i]),
-                        "b": ref.to_newick(sn[(i * 7 + 3) % len(sn)]), "functions": list(fu + fw)}, 1)
+            ctx.sample({"layer": "pairs", "rooting": rootname(rooted), "a": nwk(sn[i]),
+                        "b": nwk(sn[(i * 7 + 3) % len(sn)]), "functions": list(fu + fw)}, 1)
 
 
 def run_flags(chunk, ctx):
@@ -866,7 +989,7 @@ def run_x12(chunk, ctx):
                     eval_pair(ctx, rooted, b, a, WEIGHTED)
                     ctx.count(cname, 2)
     ctx.sample({"layer": "x01" if zero else "x12", "rooting": rootname(rooted), "first_of": len(A),
-                "a": ref.to_newick(A[len(A) // 3])}, 1)
+                "a": nwk(A[len(A) // 3])}, 1)
 
 
 # ---------------------------------------------------------------------------
@@ -892,7 +1015,7 @@ def run_zero1(chunk, ctx):
                     eval_pair(ctx, rooted, b, a, WEIGHTED)
                     ctx.count("zero_on_one_edge_pairs", 2)
     ctx.sample({"layer": "zero-on-one-edge", "rooting": rootname(rooted),
-                "b": ref.to_newick(set_len(units[chunk["lo"]], list(sn_paths(units[chunk["lo"]]))[-1], 0.0))}, 1)
+                "b": nwk(set_len(units[chunk["lo"]], list(sn_paths(units[chunk["lo"]]))[-1], 0.0))}, 1)
 
 
 @functools.lru_cache(maxsize=None)
@@ -950,7 +1073,7 @@ def run_zres(chunk, ctx):
             # harness self-check: same per-split lengths as the polytomous tree, new splits 0
             Rb, Rp = R(b, isr), R(poly, isr)
             if any(Rb[1].get(k, 0) != Rp[1].get(k, 0) for k in Rb[0] | Rp[0]):
-                raise AssertionError("harness: not a zero-length resolution: %s of %s" % (ref.to_newick(b), ref.to_newick(poly)))
+                raise AssertionError("harness: not a zero-length resolution: %s of %s" % (nwk(b), nwk(poly)))
             ctx.count("zero_resolved_trees")
             ds = [b, rev(b)]
             if n <= 4 and not rooted:
@@ -967,8 +1090,8 @@ def run_zres(chunk, ctx):
                     eval_pair(ctx, rooted, d, a, fns)
                     ctx.count("zero_resolved_pairs", 2)
     if refs:
-        ctx.sample({"layer": "zero-resolved-polytomies", "rooting": rootname(rooted), "polytomous": ref.to_newick(poly),
-                    "resolutions": len(refs), "example": ref.to_newick(zero_resolved(s, refs[-1], "idx", 0))}, 1)
+        ctx.sample({"layer": "zero-resolved-polytomies", "rooting": rootname(rooted), "polytomous": nwk(poly),
+                    "resolutions": len(refs), "example": nwk(zero_resolved(s, refs[-1], "idx", 0))}, 1)
 
 
 def drawings_of(sn_b, shape, n, rooted, tier):
@@ -1026,7 +1149,7 @@ def run_redraw(chunk, ctx):
             # harness self-check: the re-drawing really is one (same splits, same lengths)
             Rd = R(d, isr)
             if Rd[0] != Rb[0] or any(not ref.feq(Rd[1][k], Rb[1][k]) for k in Rb[0]):
-                raise AssertionError("harness: not a re-drawing: %s of %s" % (ref.to_newick(d), ref.to_newick(b)))
+                raise AssertionError("harness: not a re-drawing: %s of %s" % (nwk(d), nwk(b)))
             ctx.count("drawings_" + tag)
             # a tree and its re-drawing: distance zero, both orders
             eval_pair(ctx, rooted, b, d, fns, exact=False)
@@ -1044,8 +1167,8 @@ def run_redraw(chunk, ctx):
                 eval_pair(ctx, rooted, a, d, fns, exact=False)
                 eval_pair(ctx, rooted, d, a, fns, exact=False)
                 ctx.count("redraw_pairs", 2)
-        ctx.sample({"layer": "redraw", "rooting": rootname(rooted), "tree": ref.to_newick(b), "drawings": len(ds),
-                    "example": ref.to_newick(ds[len(ds) // 2][1]) if ds else None}, 1)
+        ctx.sample({"layer": "redraw", "rooting": rootname(rooted), "tree": nwk(b), "drawings": len(ds),
+                    "example": nwk(ds[len(ds) // 2][1]) if ds else None}, 1)
 
 
 def run_triples(chunk, ctx):
@@ -1081,7 +1204,7 @@ def run_triples(chunk, ctx):
                 continue
             if D[k][i] is not None and abs(dik - D[k][i]) > tol * max(1.0, abs(dik)):
                 ctx.violation("%s|asymmetric-value|%s" % (NAMES[fn], rootname(rooted)),
-                              "d(a,b)=%r, d(b,a)=%r for a=%s b=%s" % (dik, D[k][i], ref.to_newick(sn[i]), ref.to_newick(sn[k])),
+                              "d(a,b)=%r, d(b,a)=%r for a=%s b=%s" % (dik, D[k][i], nwk(sn[i]), nwk(sn[k])),
                               {"kind": "sym", "rooted": rooted, "fn": fn, "a": sn[i], "b": sn[k]})
             bad = None
             for j in range(m):
@@ -1096,7 +1219,7 @@ def run_triples(chunk, ctx):
                 j = bad
                 ctx.violation("%s|triangle|%s" % (NAMES[fn], rootname(rooted)),
                               "d(a,c)=%r > d(a,b)+d(b,c)=%r+%r; a=%s b=%s c=%s" % (
-                                  dik, Di[j], D[j][k], ref.to_newick(sn[i]), ref.to_newick(sn[j]), ref.to_newick(sn[k])),
+                                  dik, Di[j], D[j][k], nwk(sn[i]), nwk(sn[j]), nwk(sn[k])),
                               {"kind": "triple", "rooted": rooted, "fn": fn, "a": sn[i], "b": sn[j], "c": sn[k], "tol": tol})
     ctx.count("triples", m * m * m)
     ctx.count("triple_matrices")
@@ -1128,7 +1251,7 @@ def run_nolen(chunk, ctx):
                 eval_pair_both(ctx, rooted, a, b, WEIGHTED + (("sd",) if tag == "all" else ()))
                 eval_reorder(ctx, rooted, a, b, WEIGHTED)
                 ctx.count("missing_length_pairs")
-        ctx.sample({"layer": "missing-lengths", "rooting": rootname(rooted), "tree": ref.to_newick(mv[0][1]),
+        ctx.sample({"layer": "missing-lengths", "rooting": rootname(rooted), "tree": nwk(mv[0][1]),
                     "variants": len(mv)}, 1)
 
 
@@ -1258,13 +1381,13 @@ def eval_history(ctx, rooted, st, so, op1, edit, fns, orders=(0, 1)):
                 if again == got or (isinstance(again, float) and isinstance(got, float) and ref.feq(again, got)):
                     ctx.violation("%s|value|%s|%s" % (NAMES[fn], rootname(rooted), feature(isr, x, y)),
                                   "%s(%s, %s) [%s, fresh] = %r, definition gives %r (met after history %s, %s)" % (
-                                      NAMES[fn], ref.to_newick(x), ref.to_newick(y), rootname(rooted), show(got), show(exps[0]), op1, edit),
+                                      NAMES[fn], nwk(x), nwk(y), rootname(rooted), show(got), show(exps[0]), op1, edit),
                                   pair_case(rooted, x, y, [fn], "exact", "fresh"))
                     continue
                 ctx.violation("%s|stale|%s" % (NAMES[fn], EDITNAME[edit[0]]),
                               "history [%s; %s on t; %s(%s)] gives %r, current structures t=%s o=%s give %r" % (
                                   op1, edit, NAMES[fn], "t,o" if order == 0 else "o,t", show(got),
-                                  ref.to_newick(cur_t), ref.to_newick(cur_o), show(exps[0])), case)
+                                  nwk(cur_t), nwk(cur_o), show(exps[0])), case)
 
 
 def run_hist(chunk, ctx):
@@ -1288,8 +1411,105 @@ def run_hist(chunk, ctx):
             for edit in edits:
                 ctx.count("edits_" + edit[0])
                 eval_history(ctx, rooted, st, so, op1, edit, CORE)
-    ctx.sample({"layer": "histories", "rooting": rootname(rooted), "t": ref.to_newick(st), "partners": len(others),
+    ctx.sample({"layer": "histories", "rooting": rootname(rooted), "t": nwk(st), "partners": len(others),
                 "op1": [list(x) for x in OP1S], "edits_on_last": len(edits)}, 1)
+
+
+# ---------------------------------------------------------------------------
+# large representatives
+
+def run_bigpairs(chunk, ctx):
+    """every ordered pair (and every triple) of the equal-size trees of the stated set"""
+    n, rooted = chunk["n"], chunk["rooted"]
+    isr = bool(rooted)
+    names = [k for k, sh in big_set().items() if len(U.shape_leaves(sh)) == n]
+    env = Env.get(n, "exact")
+    allc = frozenset(env.labels)
+    for pat in ("unit", "cyc123"):
+        sn = [big_snap(big_set()[k], pat) for k in names]
+        for a in sn:
+            for b in sn:
+                eval_pair(ctx, rooted, a, b, CORE)
+                ctx.count("big_pairs")
+        if len(sn) >= 2:
+            if pat == "unit":
+                eval_foreign(ctx, rooted, sn[0], sn[-1], ("sd", "wrf"))
+            for fn in ("sd", "wrf", "euc"):
+                m = len(sn)
+                D = [[None] * m for _ in range(m)]
+                for i in range(m):
+                    for j in range(m):
+                        ta, tb = fresh(env, rooted, sn[i], sn[j], "fresh")
+                        try:
+                            D[i][j] = call(fn, ta, tb, env, isr, allc)
+                        except Exception:
+                            D[i][j] = None        # reported by eval_pair above
+                tol = 0 if fn == "sd" else 1e-9
+                for i in range(m):
+                    for j in range(m):
+                        for k in range(m):
+                            if None in (D[i][k], D[i][j], D[j][k]):
+                                continue
+                            ctx.count("big_triples")
+                            if D[i][k] > D[i][j] + D[j][k] + tol * max(1.0, D[i][k]):
+                                ctx.violation("%s|triangle|%s" % (NAMES[fn], rootname(rooted)),
+                                              "d(a,c)=%r > d(a,b)+d(b,c)=%r+%r for %s, %s, %s (%s)" % (
+                                                  D[i][k], D[i][j], D[j][k], names[i], names[j], names[k], pat),
+                                              {"kind": "triple", "rooted": rooted, "fn": fn, "a": sn[i], "b": sn[j], "c": sn[k], "tol": tol})
+                ctx.case(("bigtri", n, rooted, pat, fn), nontrivial=True, n=m * m * m)
+    ctx.sample({"layer": "large-representatives/pairs", "rooting": rootname(rooted), "leaves": n, "trees": names}, 1)
+
+
+def run_bigself(chunk, ctx):
+    """one big tree against itself, its re-drawings, NNI neighbours; a few histories"""
+    rooted, name = chunk["rooted"], chunk["name"]
+    isr = bool(rooted)
+    shape = big_set()[name]
+    n = len(U.shape_leaves(shape))
+    env = Env.get(n, "exact")
+    allc = frozenset(env.labels)
+    ctx.count("big_trees")
+    for pat in ("unit", "cyc123"):
+        t = big_snap(shape, pat)
+        Rt = R(t, isr)
+        ds = [("self", t), ("reversed", rev(t))]
+        if not rooted:
+            alld = redraw_unrooted(t)
+            # redraw_unrooted lists node-seeded drawings first, then edge-seeded (basal bifurcation)
+            n_internal = sum(1 for nd in ref.preorder(t) if nd[3]) - (1 if len(t[3]) == 2 else 0)
+            for d in pick3(alld[:n_internal]) + pick3(alld[n_internal:]):
+                ds.append(("reseed", d))
+        for tag, d in ds:
+            Rd = R(d, isr)
+            if Rd[0] != Rt[0] or any(not ref.feq(Rd[1][k], Rt[1][k]) for k in Rt[0]):
+                raise AssertionError("harness: not a re-drawing of %s (%s)" % (name, tag))
+            if pat == "unit" and tag not in ("self", "reversed"):
+                continue
+            eval_pair(ctx, rooted, t, d, CORE, exact=False)
+            if tag != "self":
+                eval_pair(ctx, rooted, d, t, CORE, exact=False)
+            ctx.count("big_drawing_pairs")
+        for nshape in nni_variants(shape):
+            v = big_snap(nshape, pat)
+            eval_pair(ctx, rooted, t, v, CORE)
+            eval_pair(ctx, rooted, v, t, CORE)
+            ctx.count("big_nni_pairs", 2)
+    # histories (cyclic lengths): partner = an NNI neighbour if there is one, else a copy
+    st = big_snap(shape, "cyc123")
+    nn = nni_variants(shape)
+    so = big_snap(nn[len(nn) // 2], "unit") if nn else big_snap(shape, "unit")
+    plan = ((["encode"], "swap"), (["dist", "wrf", 0], "move"), (["encode"], "len"), (["dist", "sd", 1], "reseed"))
+    for op1, ekind in plan:
+        pt, po = fresh(env, rooted, st, so, "fresh")
+        apply_op1(op1, pt, po, env, isr, allc)
+        cand = [e for e in enumerate_edits(pt, isr) if e[0] == ekind]
+        if not cand:
+            continue
+        edit = cand[-1] if ekind == "swap" else cand[len(cand) // 2]
+        eval_history(ctx, rooted, st, so, op1, edit, ("sd", "wrf"))
+        ctx.count("big_histories")
+    ctx.sample({"layer": "large-representatives/self", "rooting": rootname(rooted), "tree": name, "leaves": n,
+                "nni_neighbours": len(nn)}, 1)
 
 
 # ---------------------------------------------------------------------------
@@ -1310,7 +1530,7 @@ def run_foreign(chunk, ctx):
 def eval_foreign(ctx, rooted, sa, sb, fns):
     n = nleaves(sa)
     isr = bool(rooted)
-    labels = U.LABELS[:n]
+    labels = labels_for(n)
     allc = frozenset(labels)
     ctx.case(("foreign", rooted, sa, sb, fns), nontrivial=n >= 3, n=len(fns))
     for fn in fns:
